@@ -32,6 +32,10 @@ CLAIMS = {
     text="The partial store is part of the LiquidInterp state with one lookup rule per policy (eager: compiled map incl. failures; lazy: cache filled on first use incl. failures; on-demand: nothing kept); TLC checks on every scenario that each policy returns what the sources declare, that all three produce the same result, that a store warmed by earlier renders changes nothing and that errors arise only at executed tags; every scenario is then rendered 3 times on each of three real parsers and compared with the specification's result.",
     note="bounded as C08; in-memory source only.",
     tech=TECH_A, ref="DESIGN.md 7 C19"),
+ "C09": dict(
+    text="A history level over LiquidInterp: BeginRender rebuilds every per-render variable and keeps only the parser's partial store; TLC explores every history of render calls (successful and failing midway) and checks that each call's result equals the function of (template, data) computed from a fresh state and that nothing but the store survives; the harness replays every history on one shared real Parser and its Templates, and on a freshly built parser, comparing every call with the specification.",
+    note="bounded: histories of 3 calls over 3 templates x 3 data x 3 template triples x {lazy, eager} exhaustively; length 6 by random walks (thorough).",
+    tech=TECH_A, ref="DESIGN.md 7 C09"),
  "C18": dict(
     text="TLC explores every operation sequence of the explicit TLA+ specification LiquidRuntime up to the stated length from all 9 base maps, checks the declarative scope meaning against the delegation-chain form in every state, and every explored sequence is replayed on the real StackFrame/SandboxedStackFrame/GlobalFrame types with all lookups, roots, counters and register ownership compared after every operation.",
     note="bounded: length 3 (quick) / 4 exhaustive replay, 5 state-space, 6 reduced alphabet + random walks (thorough); values are scalars and one-key objects; trusted: TLC, the harness's encoding of observations.",
